@@ -1,5 +1,5 @@
 """C05 — volume container: records tile the file, compression flag, header exact."""
-from nx import bytepred, sym, layout, loops, listalg
+from nx import chrono_model as cm, bytepred, sym, layout, loops, listalg
 from nx.spec import *
 from rules import common
 
@@ -165,6 +165,13 @@ def run(chk, tier):
         if got is not None:
             c = call("core::str::converts::from_utf8", F(field))
             expect(chk, "R-WIRE", HDR + "::" + acc, got, sym.res_match(c, lambda x: some(x), lambda e: NONE), fn.where(), "the field's bytes as UTF-8 text")
+    # the header's date-time accessor: the encoded day count and milliseconds as one UTC instant, for every field value
+    evc = cm.evaluator(prog)
+    got, fn = eval_or_blind(chk, evc, "VN", HDR + "::date_time")
+    if got is not None:
+        d16 = cast(F("date"), "u32", "u16")
+        want = cm.spec_instant(cast(d16, "u16", "i64"), 1, cast(F("time"), "u32", "i64"))
+        expect(chk, "VN", HDR + "::date_time", got, want, fn.where(), "date-time = 1970-01-01 + (date - 1) days + time ms (the same closed form C08 holds the decode crate to)", key="header-date-time")
     # chunk sniffing uses the same offsets
     got, fn = eval_or_blind(chk, ev0, "VN", CHUNK_NEW, [P("data")])
     if got is not None:
